@@ -309,6 +309,12 @@ fn leaves_full() -> Vec<Expr> {
         Expr::Str(s("/* x */ // y")),
         Expr::Insens(s("a")),
         Expr::Insens(s("É\"")),
+        // letter case is content: it must survive reading in every literal kind
+        Expr::Insens(s("SeLeCT")),
+        Expr::Insens(s("Z")),
+        Expr::Str(s("AbZ")),
+        Expr::Range(s("A"), s("Z")),
+        Expr::Ident(s("Rule_1Z")),
         Expr::Range(s("a"), s("z")),
         Expr::Range(s("'"), s("\\")),
         Expr::Range(s("é"), s("😀")),
@@ -323,6 +329,7 @@ fn leaves_full() -> Vec<Expr> {
     #[cfg(feature = "extras")]
     {
         v.push(Expr::PushLiteral(s("a")));
+        v.push(Expr::PushLiteral(s("AbZ")));
         v.push(Expr::PushLiteral(s("\"\\\n")));
     }
     v
